@@ -4,31 +4,31 @@ COMMON = "Trusted: the harness's mini API server and event loop reproduce what t
 
 TEXT = {
     "C20": {
-        "level": "Exploration of schedules under the race detector: generated event batches are delivered concurrently, one goroutine per reconciler (service events plus the re-syncs other handlers request, pool / configuration events, node events), through the real k8s.Listener to the real controller and speaker, while fetcher goroutines query pool counters, layer-2 status (reading the advertisements as the status reconciler does), per-service BGP peers and the ARP decision; any race report, panic or deadlock is a violation, and the final statuses / allocator memory / counters / announcements / routes must equal those of a serial replay of the same handlers in the order in which they took effect (logged inside the Listener's critical section).",
+        "level": "Exploration of schedules under the race detector: generated event batches are delivered concurrently, one goroutine per reconciler (service events plus the re-syncs other handlers request, pool / configuration events, node events; in a third of the controller cases two service workers, the events of one service staying on one of them), through the real k8s.Listener to the real controller and speaker, while fetcher goroutines query pool counters, layer-2 status (reading the advertisements as the status reconciler does), per-service BGP peers and the ARP decision; any race report, panic or deadlock is a violation, and the final statuses / allocator memory / counters / announcements / routes must equal those of a serial replay of the same handlers in the order in which they took effect (logged inside the Listener's critical section).",
         "design_ref": "DESIGN.md section 21",
         "note": "Interleavings are produced by the Go scheduler (yields generated), not enumerated; the race detector extends each run to executions with the same happens-before graph. Workloads are restricted to those whose result is a function of the handler order. A race report fails the shard, not a single case: its replay file re-runs the shard's seed.",
         "technique": "property-based generation of concurrent workloads + race detector + serial-replay differential (rapid, -race)",
     },
     "C17": {
-        "level": "Exploration with injected faults, in real time: generated sequences of Set calls (incl. empty sets and attribute-only changes), peer-side connection drops (at once / after k more UPDATEs), an optional handshake with an unexpected ASN and short pauses are run against the real native session (NewSession, run, connect, dialMD5, consumeBGP, sendUpdates, Close) over loopback TCP under the race detector; a scripted in-process peer decodes the stream with the independent RFC 4271 decoder and its table for the current connection must equal the last requested set; after Close no connection attempt or message may follow.",
+        "level": "Exploration with injected faults, in real time: generated sequences of Set calls (incl. empty sets and attribute-only changes), peer-side connection drops (at once / after k more UPDATEs), an optional handshake with an unexpected ASN and short pauses are run against the real native session (NewSession, run, connect, dialMD5, consumeBGP, sendUpdates, Close) over loopback TCP under the race detector; a scripted in-process peer decodes the stream with the independent RFC 4271 decoder and its table for the current connection must equal the last requested set; after Close no connection attempt or message may follow. A second engine runs the real Set / sendUpdates / abort / Close / consumeBGP / sendKeepalives inside a testing/synctest bubble over net.Pipe: the peer reads byte by byte, so connection losses are placed at exact byte offsets (inside the handshake, an UPDATE, a withdraw, a KEEPALIVE), keepalive ticks and back-off run on the virtual clock, refused Set calls are interleaved, and at every point where all goroutines are idle, the connection is up and nothing is pending the peer table must equal the last requested set - without any timeout.",
         "design_ref": "DESIGN.md section 18",
-        "note": "Trusted: the scripted peer and its decoder. Timing of changes relative to the sender loop is sampled by the OS scheduler, not enumerated; convergence is awaited for 3 s + 10 s grace (normal: < 5 ms), a verdict by timeout is labelled as such. The deterministic synctest engine of the design was not built (see DESIGN.md).",
-        "technique": "stateful property-based testing with fault injection against a scripted peer (rapid, -race)",
+        "note": "Trusted: the scripted peer and its decoder. Timing of changes relative to the sender loop is sampled by the OS scheduler, not enumerated; convergence is awaited for 3 s + 10 s grace (normal: < 5 ms), a verdict by timeout is labelled as such. The virtual-clock engine re-states the dialling half of connect() and the retry loop of run() (dialMD5 needs real sockets); the loopback engine covers the real ones.",
+        "technique": "stateful property-based testing with fault injection against a scripted peer (rapid, -race; rapid + testing/synctest on a virtual clock)",
     },
     "C19": {
-        "level": "Exploration on a virtual clock: the real debouncer of internal/bgp/frr/config.go and the frr-k8s variant run inside testing/synctest bubbles (go1.26.8); submissions (new, identical, re-apply, older) at inter-arrival times chosen around the debounce and retry intervals, finite failure patterns and a slow reload action are generated; the observed apply sequence (time, configuration, outcome) must equal that of an independent event-driven reference model, submitters must never block longer than the action, and the clauses of the statement are re-checked directly.",
+        "level": "Exploration on a virtual clock: the real debouncer of internal/bgp/frr/config.go and the frr-k8s variant run inside testing/synctest bubbles (go1.26.8); submissions (new, identical, re-apply, older) at inter-arrival times chosen around the debounce and retry intervals, finite failure patterns and a slow reload action are generated; the observed apply sequence (time, configuration, outcome) must equal that of an independent event-driven reference model, submitters must never block longer than the action, and the clauses of the statement are re-checked directly. Two further engines put the real reload action (template, file, scripted reloader signal) and the whole real FRR sessionManager (NewSession / Set / Close / SyncBFDProfiles / SyncExtraInfo) in front of the real debouncer; the last applied rendering must equal what a fresh manager renders for the final state.",
         "design_ref": "DESIGN.md section 20",
         "note": "Trusted: go1.26.8's testing/synctest and the assumption that the code under test (time, channels, select) behaves under go1.26.8 as under go1.23.6; simultaneous expiry and submission may resolve either way.",
         "technique": "property-based testing on a virtual clock against a reference model (rapid + testing/synctest)",
     },
     "C13": {
-        "level": "Exploration: (1) generated histories of announce / re-announce with another interface set / withdraw / ARP packets (request or reply x destination x target x interface) / replay of the unsolicited-announcement queue, against the real Announce and real arpResponders over an in-memory packet connection, judged by a reference model after every operation (reply iff announced and covered, reference counts, gratuitous frames); (2) concurrent runs under the race detector: requester goroutines against the real responder loop while an updater toggles and re-scopes a co-tenant.",
+        "level": "Exploration: (1) generated histories of announce / re-announce with another interface set / withdraw / ARP packets (request, reply or another ARP-family opcode x destination x target x interface) / replay of the unsolicited-announcement queue, against the real Announce and real arpResponders over an in-memory packet connection, judged by a reference model after every operation (reply iff announced and covered, reference counts, gratuitous frames); (2) concurrent runs under the race detector: requester goroutines against the real responder loop while an updater toggles and re-scopes a co-tenant; (3) a placed interleaving: while the real gratuitous() writes its k-th frame the holders of the address are withdrawn on another goroutine; once the withdrawal of the last holder has returned no further unsolicited frame may be written.",
         "design_ref": "DESIGN.md section 14",
         "note": "Trusted: the in-memory PacketConn and the ethernet/arp library's decoder. NOT reached: the NDP packet path (ndp.Conn needs a raw ICMPv6 socket); it shares shouldAnnounce and the reference counting, which are covered. Interleavings of the concurrent engine are sampled by the Go scheduler.",
         "technique": "stateful property-based testing against a reference model + race-detector runs of generated concurrent workloads (rapid, -race)",
     },
     "C14": {
-        "level": "Exploration: generated session sets and advertisement sets go through the real sessionManager (NewSession/Set/Close), createConfig and templateConfig; the produced text is parsed and evaluated by the harness's interpreter of FRR's network / route-map / prefix-list semantics: per neighbor the offered prefixes with local preference and communities must equal the requested ones, inbound everything is rejected, routers originate the union, session parameters sit on the right neighbor, and the text is identical under creation order, advertisement order and close/re-create churn.",
+        "level": "Exploration: generated session sets and advertisement sets go through the real sessionManager (NewSession/Set/Close), createConfig and templateConfig; the produced text is parsed and evaluated by the harness's interpreter of FRR's network / route-map / prefix-list semantics: per neighbor the offered prefixes with local preference and communities must equal the requested ones, inbound everything is rejected, routers originate the union, session parameters sit on the right neighbor, and the text is identical under creation order, advertisement order, earlier accepted Set calls, refused Set calls (which must change nothing) and close/re-create churn.",
         "design_ref": "DESIGN.md section 15",
         "note": "Trusted: the interpreter's reading of FRR semantics (documented in its header); unknown constructs make the run inconclusive (exit 2). Sessions satisfy what the configuration layer guarantees in FRR mode; disableMP is not combined with unnumbered peers.",
         "technique": "property-based testing: interpretation of the generated artefact vs the request (rapid)",
@@ -106,19 +106,17 @@ TEXT = {
         "technique": "property-based testing: generated configurations vs an independent closed-form specification (rapid)",
     },
     "C18": {
-        "level": "Exploration: generated cluster snapshots (valid and deliberately invalid, >=3 objects per kind, several pools pinned to one namespace) are converted by the real toConfig for the original order, 1..4 random permutations of every listed kind, and 1..3 repetitions; results are compared with reflect.DeepEqual as the reconcilers do; acceptance must agree as well.",
+        "level": "Exploration: generated cluster snapshots (valid and deliberately invalid, >=3 objects per kind, several pools pinned to one namespace) are converted by the real toConfig for the original order, 1..4 random permutations of every listed kind, and 1..3 repetitions (the first on the very same in-memory snapshot, the others on fresh copies); selectors include multi-valued match expressions; a second engine drives the real Config/Pool reconcilers twice over one store; results are compared with reflect.DeepEqual as the reconcilers do; acceptance must agree as well.",
         "design_ref": "DESIGN.md section 19",
         "note": "Trusted: reflect.DeepEqual is the reconcilers' notion of 'unchanged'.",
         "technique": "property-based testing: metamorphic relation under permutation and repetition (rapid)",
     },
     "C16": {
-        "level": "Exploration: tens of thousands (quick) to millions (thorough) of generated messages per run are encoded by the real sendOpen/sendUpdate/sendWithdraw/sendKeepalive and read back by an independent RFC 4271 decoder; generated and mutated OPEN byte strings are fed to the real readOpen through a counting reader; the thorough tier adds a coverage-guided native fuzz campaign with the same oracle. It samples the input space, it does not exhaust it.",
+        "level": "Exploration: tens of thousands (quick) to millions (thorough) of generated messages per run are encoded by the real sendOpen/sendUpdate/sendWithdraw/sendKeepalive and read back by an independent RFC 4271 decoder; generated and mutated OPEN byte strings are fed to the real readOpen through a counting reader; the thorough tier adds a coverage-guided native fuzz campaign with the same oracle; an engine over whole sessions (real NewSession/connect/sendUpdates against a scripted loopback peer, with and without a configured source address) decodes every message of the stream and checks NEXT_HOP against the connection\'s local address. It samples the input space, it does not exhaust it.",
         "design_ref": "DESIGN.md section 17",
         "note": "Trusted: the harness's own RFC 4271 decoder; next hop is the 4-byte IPv4 address connect() obtains; trailing host bits of an NLRI are irrelevant.",
         "technique": "property-based testing: round trip through an independent decoder + mutation fuzzing of readOpen (rapid, go native fuzz)",
     },
 }
 
-NOT_APPLICABLE = {
-    "C20": "check not built yet (work in progress; see DESIGN.md for the planned generated-input check)"
-}
+NOT_APPLICABLE = {}
